@@ -244,7 +244,11 @@ func (ec *evalCtx) eval(e spec.Expr) Val {
 		for _, p := range x.Vars {
 			bv := smt.Const(p.Name+"!q", specSort(p.Type))
 			vars = append(vars, bv)
-			n = n.with(p.Name, Val{T: bv})
+			if gt := fc.P.goTypeByName(p.Type); gt != nil {
+				n = n.with(p.Name, fc.fromTerm(bv, gt))
+			} else {
+				n = n.with(p.Name, Val{T: bv})
+			}
 		}
 		body := n.boolean(x.Body)
 		var trigs [][]*smt.Term
@@ -465,6 +469,11 @@ func (ec *evalCtx) callSpec(x *spec.Call) Val {
 		return Val{T: ec.seqOf(ec.eval(x.Args[0]), x)}
 	case "deref":
 		v := ec.eval(x.Args[0])
+		if v.Loc == nil && v.T != nil {
+			if bi, ok := fc.boxes[v.T.String()]; ok && bi.v.Loc != nil {
+				v = bi.v
+			}
+		}
 		if v.Loc == nil || v.GoT == nil {
 			ec.fail("deref of a non-pointer in %s", x)
 		}
@@ -838,6 +847,11 @@ func (ec *evalCtx) location(e spec.Expr) (key string, ref *smt.Term, vs smt.Sort
 			return "elems", t, smt.Seq
 		case "deref":
 			v := ec.eval(x.Args[0])
+			if v.Loc == nil && v.T != nil {
+				if bi, ok := fc.boxes[v.T.String()]; ok && bi.v.Loc != nil {
+					v = bi.v
+				}
+			}
 			if v.Loc == nil {
 				ec.fail("deref of non-pointer in assigns: %s", e)
 			}
